@@ -303,6 +303,9 @@ def run_history(p, restart, ops, deadline_s=20.0):
             saved.append(sd)
             pickled.append(pickle.dumps(sd))
             obs.append(["state", copy.deepcopy(sd)])
+        elif o[0] == "peek":                 # an extra state_dict() call whose result is dropped
+            ld.state_dict()
+            obs.append("peek")
         elif o[0] == "load":
             ld.load_state_dict(saved[o[1]])
             obs.append("load")
@@ -318,3 +321,23 @@ def epochs_reference(p, n_epochs, restart=True):
     from torchdata.nodes import Loader
     ld = Loader(build(p), restart_on_stop_iteration=restart)
     return [list(ld) for _ in range(n_epochs)]
+
+
+def idle_epoch(ops):
+    """True iff some iterator handed out by iter() (or created by state_dict()) was replaced by the next iter() without a next() on it
+    (known finding D15: the sampler epoch may still advance then, depending on read-ahead timing)."""
+    requested = None
+    for o in ops:
+        if o[0] == "fresh":
+            requested = None
+        elif o[0] == "iter" or (o[0] in ("state", "peek") and requested is None):
+            if requested is False:
+                return True
+            requested = False
+        elif o[0] == "next":
+            requested = True
+    return False
+
+
+def timing_dependent(p, ops):
+    return idle_epoch(ops) and has_threads(p) and "sampler" in str(p)
